@@ -473,6 +473,29 @@ fn trace_counting(
     non_root_list: &mut LinkedList,
     queue: &mut LinkedQueue,
 ) {
+    /// If tracing panics, the objects which are still inside possible_cycles might have already been reached
+    /// (so their tracing counter has already been incremented) by the objects traced before the panic.
+    /// Every object inside possible_cycles must have its tracing counter set to zero (see add_to_list),
+    /// so reset them, otherwise the next collection would count those references twice.
+    struct ResetTracingCountersGuard<'a> {
+        possible_cycles: &'a PossibleCycles,
+    }
+
+    impl<'a> Drop for ResetTracingCountersGuard<'a> {
+        #[inline]
+        fn drop(&mut self) {
+            let mut current = self.possible_cycles.first();
+            while let Some(ptr) = current {
+                unsafe {
+                    ptr.as_ref().counter_marker().reset_tracing_counter();
+                    current = *ptr.as_ref().get_next();
+                }
+            }
+        }
+    }
+
+    let reset_guard = ResetTracingCountersGuard { possible_cycles };
+
     #[cfg(kani)] let __um = crate::verif::unwind_mark(); // verification hook (H4): emulated unwinding, /verif/DESIGN.md 2.5
     while let Some(ptr) = possible_cycles.remove_first() {
         // The tracing counter has already been reset by add_to_list(...)
@@ -485,6 +508,8 @@ fn trace_counting(
         __trace_counting(ptr, root_list, non_root_list, queue);
         #[cfg(kani)] if crate::verif::unwound(__um) { return; } // verification hook (H4): emulated unwinding, /verif/DESIGN.md 2.5
     }
+
+    mem::forget(reset_guard); // No panic happened, possible_cycles is empty
 
     debug_assert!(possible_cycles.is_empty());
     debug_assert!(queue.is_empty());
